@@ -314,6 +314,10 @@ TARGETED = [
     'WHITESPACE = _{ " " | "\\t" }\nCOMMENT = _{ "#" ~ (!NEWLINE ~ ANY)* }\nword = @{ ASCII_ALPHA+ }\nline = { word+ ~ (NEWLINE | EOI) }\nsil = _{ word ~ (";" ~ EOI | word) }\nna = !{ word+ }\nfile = { SOI ~ word* ~ EOI }',
     # user rules named like Unicode properties / built-ins (they shadow them) and referenced
     'NUMBER = @{ ASCII_DIGIT+ ~ ("." ~ ASCII_DIGIT+)? }\nLETTER = { \'a\'..\'c\' | "_" }\nname = @{ LETTER ~ (LETTER | ASCII_DIGIT)* }\nsum = { (NUMBER | name) ~ ("+" ~ (NUMBER | name))* }',
+    # no normal rule at all (only silent / ! / @ / $ rules) with WHITESPACE and COMMENT defined: the skip type must still be built
+    'WHITESPACE = _{ " " | "\\t" }\nCOMMENT = _{ "#" ~ (!NEWLINE ~ ANY)* }\nident = @{ ASCII_ALPHA+ }\nlist = !{ ident ~ ("," ~ ident)* }\nitems = _{ ident+ }\npair = ${ ident ~ "=" ~ ident }',
+    # a failed optional that pops an old entry, pushes an EMPTY one and fails; then a repetition over PEEK (ends only if restored)
+    'entry = { PUSH(ASCII_ALPHA+) ~ (DROP ~ PUSH(" "*) ~ "=" ~ DROP ~ PUSH(ASCII_DIGIT+))? ~ ":" ~ PEEK* ~ DROP }',
     # zero-width tokens under an optional
     'call = { name ~ "(" ~ args? ~ ")" }\nname = { "f" }\nargs = { (arg ~ ("," ~ arg)*)? }\narg = { "1" }\ntail = { "x"* }\nm = { "y" ~ tail? }\nend = { "a" ~ EOI? }',
     # insensitive / ranges / multi-byte
@@ -341,7 +345,7 @@ LITS = ['"a"', '"b"', '"ab"', '"c"', '"x"', '^"a"', '^"bC"', '"é"', '""']
 RANGES = ["'a'..'c'", "'0'..'9'", "'a'..'z'"]
 BI = ["ANY", "ASCII_DIGIT", "ASCII_ALPHA", "ASCII_HEX_DIGIT", "NEWLINE", "SOI", "EOI", "ASCII_ALPHANUMERIC", "ASCII"]
 UNI = ["LETTER", "NUMBER", "UPPERCASE_LETTER", "ALPHABETIC"]
-STK = ["PEEK", "POP", "DROP", "PEEK_ALL", "POP_ALL", "PEEK[0..1]", "PEEK[-1..]", "PEEK[..-1]", "PEEK[1..2]", "PEEK[-2..-1]", "PEEK[0..]"]
+STK = ["PEEK", "POP", "DROP", "PEEK_ALL", "POP_ALL", "PEEK[..]", "PEEK[0..1]", "PEEK[-1..]", "PEEK[..-1]", "PEEK[1..2]", "PEEK[-2..-1]", "PEEK[0..]"]
 
 
 def rand_expr(rng, depth, names, stacky, head=False):
